@@ -57,6 +57,7 @@ type Options struct {
 	SanityCheck bool
 	Env         []string
 	Tests       bool
+	Sites       bool // include the site identities of InferredMap facts
 }
 
 // SetFlags sets (and resets to defaults first) the config analyzer flags.
@@ -133,7 +134,7 @@ func Run(o Options) (*Result, error) {
 			} else {
 				sha = "ENCODE-ERROR: " + err.Error()
 			}
-			res.Facts = append(res.Facts, Fact{Pkg: act.Package.PkgPath, Analyzer: act.Analyzer.Name, Type: fmt.Sprintf("%T", pf.Fact), Sha: sha, Size: size, Sites: inference.VerifFactSites(pf.Fact)})
+			res.Facts = append(res.Facts, Fact{Pkg: act.Package.PkgPath, Analyzer: act.Analyzer.Name, Type: fmt.Sprintf("%T", pf.Fact), Sha: sha, Size: size, Sites: sitesIf(o.Sites, pf.Fact)})
 		}
 	}
 	// g.All() order is not specified: canonicalise by package, keeping per-package report order
@@ -149,4 +150,11 @@ func Run(o Options) (*Result, error) {
 		return a.Type < b.Type
 	})
 	return res, nil
+}
+
+func sitesIf(on bool, f analysis.Fact) []inference.VerifSiteInfo {
+	if !on {
+		return nil
+	}
+	return inference.VerifFactSites(f)
 }
